@@ -388,9 +388,12 @@ class VtbAlgebra(AbstractAlgebra):
         if not np.allclose(m, m.T):
             return VtbSign(None)
         eigenvalues = np.linalg.eigvalsh(m)
-        if np.all(eigenvalues > 0):
+        # Eigenvalues that vanish up to rounding belong to a singular matrix,
+        # which is neither positive nor negative definite.
+        tol = len(eigenvalues) * np.finfo(float).eps * np.max(np.abs(eigenvalues))
+        if np.all(eigenvalues > tol):
             return VtbSign(1)
-        elif np.all(eigenvalues < 0):
+        elif np.all(eigenvalues < -tol):
             return VtbSign(-1)
         elif np.allclose(eigenvalues, 0):
             return VtbSign(0)
